@@ -325,6 +325,10 @@ fn parse_at_rule(
                                 error::ParseErrorKind::UnexpectedCharacter,
                                 peek.position..peek.position,
                             );
+                            // close the blocks that have been written
+                            while let Some(close) = close_stack.pop() {
+                                ss.append_nested_block_close(close, input);
+                            }
                             return Err(input.new_error_for_next_token());
                         }
                     }
@@ -340,6 +344,13 @@ fn parse_at_rule(
                                     error::ParseErrorKind::UnexpectedCharacter,
                                     pos..pos,
                                 );
+                                // give the written `@media ...` an empty block and close the blocks that have been written
+                                let st = StepToken::wrap(Token::CurlyBracketBlock, start_pos);
+                                let close = ss.append_nested_block(st, input);
+                                close_stack.push(close);
+                                while let Some(close) = close_stack.pop() {
+                                    ss.append_nested_block_close(close, input);
+                                }
                                 return Err(input.new_error_for_next_token());
                             }
                             Token::SquareBracketBlock
